@@ -521,6 +521,12 @@ pub fn cases(tier: Tier) -> Vec<Case> {
                             continue;
                         }
                     }
+                    // two replacements of the same identifier: the second would be applied to the first's result
+                    if let (Mutn::AlgWrap(p1, ..), Mutn::AlgWrap(p2, ..)) = (a, b) {
+                        if p1 == p2 {
+                            continue;
+                        }
+                    }
                     v.push(Case { kind: kind.into(), absent: 0, muts: vec![a.clone(), b.clone()] });
                 }
             }
@@ -602,6 +608,78 @@ fn long_binary(stats: &mut Stats) {
                         }
                     }
                 }
+            }
+        }
+    }
+}
+
+// ------------------------------------------------------------------------------------------
+// a valid document after n documents that failed (or half-failed) on the same thread: lists given
+// as null / a string / a number / an object, a descriptor whose transports is not a list, JSON cut
+// off inside a list.  Parsing is a function of the document: the n+1st parse equals the parse on
+// a thread that has seen nothing.
+fn after_failed_parses_one(n: usize, kind_of_failure: usize) -> Vec<(String, String)> {
+    let bad_docs = |kind: &str| -> Vec<String> {
+        let list_paths: Vec<&str> = if kind == "create" { vec!["/publicKey/excludeCredentials", "/publicKey/pubKeyCredParams", "/publicKey/hints", "/publicKey/attestationFormats"] } else { vec!["/publicKey/allowCredentials", "/publicKey/hints", "/publicKey/attestationFormats"] };
+        let mut v = vec![];
+        for p in &list_paths {
+            for repl in [json!(null), json!("x"), json!(5), json!({"a": 1}), json!(true)] {
+                let mut d = canonical(kind);
+                if let Some(x) = d.pointer_mut(p) {
+                    *x = repl;
+                    v.push(d.to_string());
+                }
+            }
+        }
+        let desc = if kind == "create" { "/publicKey/excludeCredentials/0/transports" } else { "/publicKey/allowCredentials/0/transports" };
+        for repl in [json!("usb"), json!(7), json!({"usb": true})] {
+            let mut d = canonical(kind);
+            if let Some(x) = d.pointer_mut(desc) {
+                *x = repl;
+                v.push(d.to_string());
+            }
+        }
+        // JSON cut off inside a list
+        let text = canonical(kind).to_string();
+        for marker in ["\"transports\":[", "Credentials\":[", "\"hints\":["] {
+            if let Some(i) = text.find(marker) {
+                v.push(text[..i + marker.len() + 3].to_string());
+            }
+        }
+        v
+    };
+    let mut out = vec![];
+    for kind in ["create", "get"] {
+        let bad = bad_docs(kind);
+        if bad.is_empty() {
+            continue;
+        }
+        let good = canonical(kind).to_string();
+        let (b2, g2, k2) = (bad.clone(), good.clone(), kind.to_string());
+        let got = std::thread::spawn(move || {
+            for i in 0..n {
+                let _ = parse_debug(&k2, &b2[(kind_of_failure + i * (1 + kind_of_failure % 3)) % b2.len()]);
+            }
+            parse_debug(&k2, &g2)
+        })
+        .join();
+        let (g3, k3) = (good.clone(), kind.to_string());
+        let want = std::thread::spawn(move || parse_debug(&k3, &g3)).join();
+        match (got, want) {
+            (Ok(Ok(Ok(g))), Ok(Ok(Ok(w)))) if g == w => {}
+            (Ok(g), Ok(w)) => out.push((format!("doc={kind}/kind=parse-depends-on-thread-history"), format!("after {n} documents whose lists were malformed, the canonical document parses to {:?} on the same thread; a thread that parsed nothing before gets {:?}", g.map(|r| r.map(|s| s.len())), w.map(|r| r.map(|s| s.len()))))),
+            _ => out.push(("harness".into(), "parse thread died".into())),
+        }
+    }
+    out
+}
+fn after_failed_parses(stats: &mut Stats) {
+    for n in [1usize, 2, 3, 7, 8, 9, 16, 17, 33, 64, 65, 129, 300] {
+        for k in 0..6usize {
+            let case = json!({"after_failed_parses": {"n": n, "k": k}});
+            stats.case(&case.to_string(), true, "after-failed-parses");
+            for (key, d) in after_failed_parses_one(n, k) {
+                stats.finding(Finding::new(key, d, case.clone()));
             }
         }
     }
@@ -1100,6 +1178,7 @@ pub fn run(ctx: &Ctx) -> Result<Run, String> {
     named_members(&mut stats, ctx.threads);
     long_binary(&mut stats);
     long_text(&mut stats);
+    after_failed_parses(&mut stats);
     for case in client_data_cases() {
         stats.case(&case.to_string(), true, "client-data-order");
         for f in client_data_one(&case) {
@@ -1114,7 +1193,7 @@ pub fn run(ctx: &Ctx) -> Result<Run, String> {
     }
     let mut run = Run::from_stats(
         "exploration",
-        "creation and request options: all 256 presence patterns of the optional members x one presentation change at a time (each binary member as array / base64url +- padding / base64 +- padding / base64url with non-zero unused trailing bits +- padding, timeout and alg as number / numeric string / integral float / float string, an unknown scalar/object/array member at every position of every object, an unknown string for every enumeration, every algorithm identifier replaced by a number congruent to it modulo 2^64 / 2^32 (integer, string, float; dropped like any unknown identifier, or refused), every string value spelled with JSON escapes (all characters, first and last, an escaped solidus plus upper-case hex) - the same JSON value, an unknown entry at every index of every lenient list incl. pubKeyCredParams entries with an unknown alg in every member order and with trailing unknown members); thorough: all pairs of changes on the full document. Every document is parsed through three routes (borrowed text, an owned serde_json::Value, a byte reader) which must agree (a disagreement is a finding of its own). Oracle: Debug of the parsed value equals that of the canonical presentation (unknown enum = member absent, unknown list entry = entry absent). Long text members: user.name, user.displayName and rp.name of 63..70000 bytes, ASCII and with multi-byte characters across the 64/128/256-byte marks, read back unchanged through the three routes. Long binary members: a challenge of 255..100000 bytes in each of the five presentations parses to the same value. Named unknown members: every identifier-like string literal of the types and client crates (and near-miss spellings of the declared names) as the name of an undeclared member of every object, with seven value shapes, and standing in for each declared member of that object (it must stay ignored; the one spelling the pinned tree documents, allowList, is exempt). Plus base64url encode/decode identity on all byte strings up to length 2 (3 thorough) and patterned lengths 4..64 against an own RFC 4648 codec; every credential emitted by 72 register+authenticate ceremonies re-parsed from its JSON; CollectedClientData member order for 3 extra-data types x 16 orders of 0..3 unknown members x crossOrigin x type, and the client data emitted by Client::register/authenticate for five caller-supplied extras with a standard member's name at each position. Non-trivial = distinct case with at least one presentation change / non-empty input",
+        "creation and request options: all 256 presence patterns of the optional members x one presentation change at a time (each binary member as array / base64url +- padding / base64 +- padding / base64url with non-zero unused trailing bits +- padding, timeout and alg as number / numeric string / integral float / float string, an unknown scalar/object/array member at every position of every object, an unknown string for every enumeration, every algorithm identifier replaced by a number congruent to it modulo 2^64 / 2^32 (integer, string, float; dropped like any unknown identifier, or refused), every string value spelled with JSON escapes (all characters, first and last, an escaped solidus plus upper-case hex) - the same JSON value, an unknown entry at every index of every lenient list incl. pubKeyCredParams entries with an unknown alg in every member order and with trailing unknown members); thorough: all pairs of changes on the full document. Every document is parsed through three routes (borrowed text, an owned serde_json::Value, a byte reader) which must agree (a disagreement is a finding of its own). Oracle: Debug of the parsed value equals that of the canonical presentation (unknown enum = member absent, unknown list entry = entry absent). A valid document after 1..300 documents with malformed lists (null, string, number, object, non-list transports, JSON cut off inside a list) on the same thread parses as on a fresh thread. Long text members: user.name, user.displayName and rp.name of 63..70000 bytes, ASCII and with multi-byte characters across the 64/128/256-byte marks, read back unchanged through the three routes. Long binary members: a challenge of 255..100000 bytes in each of the five presentations parses to the same value. Named unknown members: every identifier-like string literal of the types and client crates (and near-miss spellings of the declared names) as the name of an undeclared member of every object, with seven value shapes, and standing in for each declared member of that object (it must stay ignored; the one spelling the pinned tree documents, allowList, is exempt). Plus base64url encode/decode identity on all byte strings up to length 2 (3 thorough) and patterned lengths 4..64 against an own RFC 4648 codec; every credential emitted by 72 register+authenticate ceremonies re-parsed from its JSON; CollectedClientData member order for 3 extra-data types x 16 orders of 0..3 unknown members x crossOrigin x type, and the client data emitted by Client::register/authenticate for five caller-supplied extras with a standard member's name at each position. Non-trivial = distinct case with at least one presentation change / non-empty input",
         true,
         stats,
     );
@@ -1128,6 +1207,9 @@ pub fn replay(ctx: &Ctx, case: &Value) -> Result<Vec<Finding>, String> {
         let mut st = Stats::new();
         b64_one(&b, &mut st);
         return Ok(st.findings.into_values().map(|x| x.0).collect());
+    }
+    if let Some(a) = case.get("after_failed_parses") {
+        return Ok(after_failed_parses_one(a["n"].as_u64().unwrap_or(0) as usize, a["k"].as_u64().unwrap_or(0) as usize).into_iter().map(|(k, d)| Finding::new(k, d, case.clone())).collect());
     }
     if let Some(l) = case.get("long_text") {
         return Ok(long_text_one(l["member"].as_u64().unwrap_or(0) as usize, l["which"].as_u64().unwrap_or(0) as usize).into_iter().map(|(k, d)| Finding::new(k, d, case.clone())).collect());
